@@ -139,23 +139,32 @@ def split_arms(text, fns):
     `match self {` of each listed function."""
     lines = text.split("\n")
     arm_lines = []
+    fn_re = re.compile(r"^\s*(pub(\([a-z]+\))?\s+)?(proof\s+|spec\s+|open\s+spec\s+|closed\s+spec\s+)?fn\s+")
     for q in fns:
         short = q.split("::")[-1]
-        start = next((i for i, l in enumerate(lines) if re.search(r"^\s*(pub(\([a-z]+\))?\s+)?fn\s+" + re.escape(short) + r"\s*[(<]", l) and not l.rstrip().endswith(";") and "proof fn" not in l), None)
-        if start is None:
+        starts = [i for i, l in enumerate(lines) if re.search(r"^\s*(pub(\([a-z]+\))?\s+)?fn\s+" + re.escape(short) + r"\s*[(<]", l) and not l.rstrip().endswith(";") and "proof fn" not in l]
+        if not starts:
             raise E.Undecided("lost-anchor", f"split_arms: function {q} not found")
-        mi = next((i for i in range(start, len(lines)) if re.match(r"^\s*match \w+ \{$", lines[i])), None)
-        if mi is None:
-            raise E.Undecided("lost-anchor", f"split_arms: no `match self` in {q}")
-        ind = len(lines[mi]) - len(lines[mi].lstrip()) + 4
-        depth = 0
-        for i in range(mi, len(lines)):
-            l = lines[i]
-            if i > mi and depth == 1 and len(l) - len(l.lstrip()) == ind and l.rstrip().endswith("=> {") and not l.lstrip().startswith("//"):
-                arm_lines.append(i)
-            depth += l.count("{") - l.count("}")
-            if i > mi and depth <= 0:
+        found = []
+        # several functions may share the short name (a trait declaration, other impls): take the first whose own text
+        # holds a `match <ident> {` with block arms
+        for start in starts:
+            stop = next((i for i in range(start + 1, len(lines)) if fn_re.match(lines[i])), len(lines))
+            mi = next((i for i in range(start, stop) if re.match(r"^\s*match \w+ \{$", lines[i])), None)
+            if mi is None:
+                continue
+            ind = len(lines[mi]) - len(lines[mi].lstrip()) + 4
+            depth = 0
+            for i in range(mi, len(lines)):
+                l = lines[i]
+                if i > mi and depth == 1 and len(l) - len(l.lstrip()) == ind and l.rstrip().endswith("=> {") and not l.lstrip().startswith("//"):
+                    found.append(i)
+                depth += l.count("{") - l.count("}")
+                if i > mi and depth <= 0:
+                    break
+            if found:
                 break
+        arm_lines += found
     if not arm_lines:
         raise E.Undecided("lost-anchor", "split_arms: no block arms found")
     cut = " proof { assume(false); } // case split: this arm is verified in another run"
